@@ -37,6 +37,10 @@ def classify(rv, rs, allow_stack=True):
         return 'inconclusive:undef'
     if rs.outcome == 'fuel' or rv.outcome == 'fuel':
         return 'inconclusive:fuel'
+    if rs.outcome.startswith('fault:control_fell_off'):
+        # the typed tree of an accepted program lets control fall off the end of a function: the front end is supposed to append
+        # `return;` or reject (C16); no reading of the source makes the compiled behaviour right
+        return 'FELLOFF'
     if rs.outcome.startswith(('fault', 'asterror', 'initerror')):
         return 'inconclusive:model:' + rs.outcome[:60]
     if allow_stack and 'stack_overflow' in rv.flags and 'stack_overflow' not in rs.flags:
@@ -89,7 +93,7 @@ def describe(r):
     return dict(outcome=r.outcome, output=r.output[:400].hex(), flags=r.flags, steps=r.steps)
 
 
-def differential(ctx, jobs, srcs, kinds_bad=('DIFF', 'HALT', 'FAULT', 'ASMERROR'), allow_stack=True,
+def differential(ctx, jobs, srcs, kinds_bad=('DIFF', 'HALT', 'FAULT', 'ASMERROR', 'FELLOFF'), allow_stack=True,
                  do_shrink=True, max_report=3, label='diff', must_compile=False):
     """run VM and reference machine on the jobs; record violations (shrunk) in ctx"""
     cases, rejected = compile_cases(jobs)
